@@ -1484,6 +1484,9 @@ class ConstBCBase(BCBase):
         self._value = value
         self.homogeneous = False
         self.value_is_linked = True
+        # the identity of the linked array must enter keys of caches, since conditions
+        # linked to different arrays with (currently) identical content differ
+        self._value_link_id = id(value)
 
     def copy(
         self: ConstBCBase,
